@@ -64,6 +64,41 @@ def gen_deflate(tier, rng):
                         calls=[[n1, ao, [1, 2][(ao + d) % 2], 0], [45000, 1 << 17, 0, 0], [0, 1 << 17, 0, 1]], tail_ai=len(inp), tail_ao=1 << 17, cap=60, meta={"family": "stored-tail-in-internal-buffer"})
     return scns
 
+def queued_lookahead_family(tier, rng, wd, first):
+    """Level 3 turns input into match tokens ahead of the block being written.  Incompressible data up to the point where the token buffer
+    fills (learnt from a probe run: the length of the first stored block), then zeros, so that the tokens queued for the NEXT block end in a
+    long match; the first call's output room is swept around (block length - internal buffer size), where the stored block is still admitted
+    and its tail waits in the internal buffer next to the queued look-ahead."""
+    BUF = 65824
+    probes = []
+    rnd = igz.corpus(rng, "random", 300000)
+    for lb in ((3, 0, 2) if tier == "quick" else (0, 1, 2, 3, 4)):
+        probes.append(igz.scenario(len(probes), "deflate", rnd, level=3, wrap=0, lbuf=lb, calls=[[len(rnd), 1 << 19, 0, 1]], tail_ao=1 << 19, meta={"family": "probe"}))
+    recs, summ, by = igz.merge(probes, igz.run_harness(probes, wd, "c05probe"))
+    out, cands = [], []
+    for pr in probes:
+        o = [b for c in by[pr["scn"]]["calls"] for b in c["out"]]
+        x, pos = 0, 0
+        while pos + 5 <= len(o) and (o[pos] & 6) == 0:           # stored sub-blocks of the first deflate block: a short one ends it
+            ln = o[pos + 1] | (o[pos + 2] << 8); x += ln; pos += 5 + ln
+            if ln < 65535: break
+        if x < BUF: continue
+        for zfrom in (x, x - 1960):
+            inp = rnd[:zfrom] + [0] * (x + 28000 - zfrom)
+            cands.append((pr["lbuf"], inp, x))
+    # second probe: how much input the library has taken when that block is closed (level 3 has by then queued tokens for the next block)
+    probes2 = [igz.scenario(i, "deflate", inp, level=3, wrap=0, lbuf=lb, calls=[[len(inp), x + 5 * ((x + 65534) // 65535) - BUF + 5000, 0, 0], [0, 1 << 18, 0, 1]], tail_ao=1 << 18, cap=60, meta={"family": "probe"})
+               for i, (lb, inp, x) in enumerate(cands)]
+    recs, summ, by = igz.merge(probes2, igz.run_harness(probes2, wd, "c05probe2")) if probes2 else (None, None, {})
+    for pr, (lb, inp, x) in zip(probes2, cands):
+        cl = by[pr["scn"]]["calls"]
+        if not cl or not cl[0]["st"].endswith("TYPE0_BODY"): continue
+        base = cl[0]["c"] + 5 * ((x + 65534) // 65535) - BUF
+        for j in range(-320, 16, 4 if tier == "quick" else 1):
+            out.append(igz.scenario(first + len(out), "deflate", inp, level=3, wrap=0, lbuf=lb, mem=1, calls=[[len(inp), base + j, 0, 0], [0, 1 << 18, 0, 1]], tail_ao=1 << 18, cap=60,
+                                    meta={"family": "level3-look-ahead-queued-behind-a-stored-block"}))
+    return out
+
 def gen_inflate(tier, rng):
     import defgen
     scns = []
@@ -123,6 +158,7 @@ def run(tier, replay=None):
         dsc, isc = ([rp["scenario"]], []) if rp["scenario"]["api"] in (0, 1) else ([], [rp["scenario"]])
     else:
         dsc, isc = gen_deflate(tier, rng), gen_inflate(tier, rng)
+        dsc += queued_lookahead_family(tier, rng, wd, len(dsc))
     calls = 0
     if dsc:
         tf = igz.run_harness(dsc, wd, "defl")
